@@ -277,8 +277,14 @@ func WrapUnwrap() {
 	n := lo + vx.Choice("regions", vx.Param("maxregions")-lo+1)
 	preferred := regions[vx.Choice("preferred", n)]
 	wv := 1 + vx.Choice("wrap_version", 2)
-	uv := 1 + vx.Choice("unwrap_version", 2)
-	w := newWorld(n, true, true)
+	uv := wv
+	if vx.Param("samev") != 1 {
+		// (samev=1: the unwrapping plugin is of the same SDK generation as the wrapping one - used by the three-region
+		// entry to halve its cost; the cross-generation exchange is covered with two regions)
+		uv = 1 + vx.Choice("unwrap_version", 2)
+	}
+	// unwrapfaults=0: every region answers at unwrap time (used by the three-region entry to bound its cost)
+	w := newWorld(n, true, vx.Param("unwrapfaults") != 0)
 	vx.Now()
 	vx.ClockFreeze(true)
 	// altwrap=1: the wrapping side may be configured with alias ARNs as well (the service still reports key ARNs)
@@ -346,7 +352,12 @@ func WrapUnwrap() {
 		want += `{"region":#string,"arn":#string,"encryptedKek":#base64}`
 	}
 	want += `]}`
-	vx.Assert("C17.envelope_has_one_entry_per_successful_region", shape == want)
+	if !w.incomplete[gen] {
+		// (an entry carrying the empty blob of an incomplete GenerateDataKey response renders as an empty JSON string,
+		// which the shape function cannot tell from a plain string: the entry count is then checked through the
+		// unwrap obligations only)
+		vx.Assert("C17.envelope_has_one_entry_per_successful_region", shape == want)
+	}
 
 	// unwrap, possibly with the other plugin, under its own failures
 	w.log = nil
